@@ -77,6 +77,26 @@ def run_cases(pid, literals, work, tag):
         return json.load(fh), None
 
 
+def run_w3(work):
+    """run $VALIDA_SRC/tests under the monitors (see vf/pytest_plugin.py); -> report dict or None"""
+    src = os.environ.get("VALIDA_SRC", "/repo")
+    if not os.path.isdir(os.path.join(src, "tests")):
+        return None
+    out = os.path.join(work, "w3.json")
+    env = dict(os.environ, PYTHONPATH=ROOT + os.pathsep + os.environ.get("PYTHONPATH", ""), VF_W3_OUT=out)
+    logp = os.path.join(work, "w3.log")
+    with open(logp, "w") as log:
+        try:
+            subprocess.run([PY, "-B", "-m", "pytest", "-q", "-x", "-p", "vf.pytest_plugin", "-p", "no:cacheprovider", "tests"],
+                           cwd=src, env=env, stdout=log, stderr=log, timeout=900)
+        except subprocess.TimeoutExpired:
+            return None
+    if not os.path.exists(out):
+        return None
+    with open(out) as fh:
+        return json.load(fh)
+
+
 def merge(results):
     m = {
         "evaluations": 0, "stats": collections.Counter(), "violations": {}, "nontrivial": set(),
@@ -225,6 +245,27 @@ def check(pid, prop, tier, seed, work):
             else:
                 violations[k] = v
 
+    # 2b. workload W3: the repository's own tests under the contracts this property owns
+    w3 = None
+    own = getattr(prop, "W3_CONTRACTS", None)
+    if own:
+        w3 = run_w3(work)
+        if w3 is None:
+            inconclusive.append("W3 (repository tests under contracts) did not produce a report")
+        else:
+            if w3["tests"] < 200:
+                inconclusive.append(f"W3 ran only {w3['tests']} tests")
+            for f in w3["contract_failures"]:
+                if f["contract"] in own:
+                    k = f"{pid}/W3/contract:{f['contract']}"
+                    if k not in violations:
+                        violations[k] = {"count": 0, "case": repr({"w3_test": f["test"]}), "detail":
+                                         f"contract {f['contract']} failed during the repository's own test {f['test']}: {f['detail']}"}
+                    violations[k]["count"] += 1
+            m["w3"] = {"tests_run": w3["tests"], "tests_failed": len(w3["failed_tests"]),
+                       "contract_evaluations_during_repo_tests": {k: v for k, v in w3["contract_evals"].items() if k in own},
+                       "contract_failures": sum(1 for f in w3["contract_failures"] if f["contract"] in own)}
+
     # 3. required observations
     if not problems and hasattr(prop, "required"):
         try:
@@ -298,6 +339,8 @@ def write_evidence(pid, prop, tier, seed, m, violations, known_hits, inconclusiv
     }
     if m["extra"]:
         cov["extra"] = m["extra"][:4]
+    if m.get("w3"):
+        cov["workload_W3_repo_tests_under_contracts"] = m["w3"]
     ev = {
         "property_id": pid,
         "tier": tier,
